@@ -1,5 +1,6 @@
 """C04 -- persistent collections are immutable values that behave like their model."""
 import itertools
+import os
 
 ID = "C04"
 TITLE = "Persistent collections are immutable values that behave like their model"
@@ -15,6 +16,11 @@ SHARD = 300
 HARD_TIMEOUT = 60
 NWORKERS = 2          # a case costs ~0.15 ms of work; bootstraps (12 s each) do not parallelise well
 EXHAUSTIVE = {"quick": False, "thorough": False}
+# seeded sensitivity runs without touching /repo: C04_REPO_SRC=<scratch copy of /repo/src> makes the
+# implementation workers import basilisp from there (native overlay, translator items: unchanged)
+if os.environ.get("C04_REPO_SRC"):
+    WORKER_ENV = {"PYTHONPATH": os.environ["C04_REPO_SRC"] + os.pathsep
+                  + os.path.dirname(os.path.dirname(os.path.dirname(os.path.abspath(__file__))))}
 RULE = ("a case is one branching history over vectors, lists, queues, maps, sets, nil and their "
         "transients; every operation names the earlier results it uses by position. Quick: all "
         "mutator sequences of length <= 2 per collection kind and start value, each mutator applied "
@@ -26,6 +32,18 @@ RULE = ("a case is one branching history over vectors, lists, queues, maps, sets
         "are crossed). Random histories never turn the library's iteration order of a map or set of "
         ">= 2 elements into positions ((into [] m), merge of a 2-element set): the executable "
         "instance of the model iterates in insertion order; (seq m) is kept. "
+        "Variadic calls -- (disj s a b ..), (dissoc m k ..), (assoc c k v k' v'), (conj c a b c) and the "
+        "transient (conj! ..) (assoc! ..) (dissoc! ..) (disj! ..) with 2-3 arguments -- are performed by the "
+        "implementation as ONE call of the core function; on the Coq side the case printer unfolds each "
+        "of them (conj excepted: OConj carries a list) to the left fold of the UNARY operation, a group of "
+        "consecutive operations each naming the slot of the one before it (CHistV gs ops, C04/Variadic.v): "
+        "the model's result of the call is the first exception of the group, else its last result; the "
+        "specification checks the whole chain with the model's intermediate values as witnesses (each "
+        "checked like any other result) and the observed result in the call's position. "
+        "Dedicated generator: disj/dissoc/disj!/dissoc! with 2 and 3 arguments, present and absent "
+        "elements in every order, assoc/assoc! with two pairs over all key pairs and all index pairs 0..3, "
+        "conj/conj! with 3 elements (incl. an ill-formed entry in the middle), on nil and on wrong kinds; "
+        "the random histories contain variadic calls too. "
         "Every result is observed when produced and re-read after the whole history; "
         "transients are read through persistent! at the end. A case is non-trivial when at least "
         "two operations return collections; distinct = distinct JSON encoding.")
@@ -43,7 +61,8 @@ ASSUMPTIONS = [
     "these; collections are not nested inside maps/sets/lists other than as vectors",
     "operations applied to results that are neither nil, a collection nor a transient are outside the "
     "fragment (both sides report class 0)",
-    "multi-arity assoc / dissoc / disj / conj! and merge of more than two maps are not in the fragment",
+    "merge of more than two maps is not in the fragment; variadic assoc / dissoc / disj / conj! / assoc! / "
+    "dissoc! / disj! are in it as the left fold of the unary operation (an odd number of assoc arguments is not)",
 ]
 
 
@@ -149,8 +168,61 @@ def g_op(op):
     raise ValueError(op)
 
 
+# variadic calls: name -> the unary operation they are the left fold of
+NARY = {"assocn": "assoc", "dissocn": "dissoc", "disjn": "disj", "conj!n": "conj!", "assoc!n": "assoc!",
+        "dissoc!n": "dissoc!", "disj!n": "disj!"}
+NOREF = ("new", "newmap", "nil")
+REF2 = ("into", "merge", "eq")
+BADPOS = 999999
+
+
+def unfold_nary(op, target):
+    """the unary operations of one variadic call, the first on `target`; None marks 'the slot of
+    the previous one'"""
+    u = NARY[op[0]]
+    args = [list(a) for a in op[2]] if u in ("assoc", "assoc!") else [[a] for a in op[2]]
+    return [[u, target if j == 0 else None] + a for j, a in enumerate(args)]
+
+
+def expand(ops):
+    """(group sizes, history in which every variadic call is unfolded to the chain of unary
+    operations; every reference renumbered to the LAST slot of the group it names)"""
+    gs, flat, last = [], [], []
+
+    def ref(i):
+        return last[i] if isinstance(i, int) and 0 <= i < len(last) else BADPOS
+
+    for op in ops:
+        if op[0] in NARY and len(op[2]) >= 1:
+            chain = unfold_nary(op, ref(op[1]))
+            for u in chain:
+                if u[1] is None:
+                    u[1] = len(flat) - 1
+                flat.append(u)
+            gs.append(len(chain))
+        else:
+            op = list(op)
+            if op[0] in NARY:                       # no argument at all: not generated; (f c) is c
+                op = ["conj", op[1], []]
+            if op[0] not in NOREF and len(op) > 1:
+                op[1] = ref(op[1])
+            if op[0] in REF2:
+                op[2] = ref(op[2])
+            flat.append(op)
+            gs.append(1)
+        last.append(len(flat) - 1)
+    return gs, flat
+
+
+def has_nary(c):
+    return any(o[0] in NARY for o in c["ops"])
+
+
 def coq_case(c):
-    return "(CHist " + g_list(g_op(o) for o in c["ops"]) + ")"
+    if not has_nary(c):
+        return "(CHist " + g_list(g_op(o) for o in c["ops"]) + ")"
+    gs, flat = expand(c["ops"])
+    return "(CHistV " + g_list(str(n) for n in gs) + "%nat " + g_list(g_op(o) for o in flat) + ")"
 
 
 CK = {"V": "CVec", "L": "CList", "Q": "CQueue", "S": "CSet"}
@@ -222,6 +294,24 @@ class Shadow:
         return 0 <= i < len(self.slots) and self.slots[i][0] != "X"
 
     def step(self, op):
+        if op[0] in NARY and op[2]:
+            # the fold of the unary operation over temporary slots; stops at the first failure
+            # (a transient keeps what the earlier arguments did to it)
+            n = len(self.slots)
+            r = ("X", None, None)
+            for u in unfold_nary(op, op[1]):
+                if u[1] is None:
+                    u[1] = len(self.slots) - 1
+                try:
+                    r = self._step(u)
+                except Exception:
+                    r = ("X", None, None)
+                self.slots.append(r)
+                if r[0] == "X":
+                    break
+            del self.slots[n:]
+            self.slots.append(r)
+            return r
         try:
             r = self._step(op)
         except Exception:
@@ -546,6 +636,54 @@ def sampled_sequences(rng, length, n):
             yield c
 
 
+def variadic_cases():
+    """variadic calls performed as ONE call by the implementation: disj / dissoc (and disj! / dissoc!)
+    with 2 and 3 arguments where present and absent elements / keys come in every order (2 arguments
+    over two present -- 1.0 for the stored 1, nil -- and two absent ones -- a keyword, the object
+    colliding with 1 --; 3 arguments over present / absent / present), assoc / assoc! with two pairs
+    on maps (all key pairs) and on vectors (all index pairs of 0..3: in place, append, out of range
+    first or second), conj / conj! with 3 elements"""
+    rd = lambda t: [["count", t], ["seq", t], ["get", t, K1], ["contains", t, K2], ["contains", t, None]]
+
+    def both(start, name, args, kind):
+        # persistent: the call, reads of the result, the source once more
+        yield {"ops": [start, [name, 0, args]] + battery(kind, 1, 0)}
+        # transient: the call, reads through the transient, persistent!, reads of the result
+        tn = name[:-1] + "!n"
+        yield {"ops": [start, ["transient", 0], [tn, 1, args]] + rd(2) + [["persistent", 2]] + battery(kind, 8, 0)}
+
+    P1, P2, A1, A2 = K2, None, KW(5), K3
+    tuples = list(itertools.product([P1, P2, A1, A2], repeat=2)) + list(itertools.product([P1, A1, P2], repeat=3))
+    for args in tuples:
+        for start in (["new", "S", []], ["new", "S", [K1, None, KW(0)]]):
+            yield from both(start, "disjn", list(args), "S")
+        for start in (["newmap", []], ["newmap", [[K1, KW(0)], [None, False], [KW(0), 2]]]):
+            yield from both(start, "dissocn", list(args), "M")
+    keys = [K1, K2, K3, None, KW(5)]
+    for k1, k2 in itertools.product(keys, repeat=2):
+        for start in STARTS["M"]:
+            yield from both(start, "assocn", [[k1, KW(1)], [k2, False]], "M")
+    for i1, i2 in itertools.product(range(4), repeat=2):
+        for start in STARTS["V"]:
+            yield from both(start, "assocn", [[i1, KW(1)], [i2, None]], "V")
+    # on nil, on the wrong kind, three pairs / elements, an ill-formed entry in the middle
+    for args3 in ([K1, K2, K3], [None, KW(1), K1], [[K1, KW(1)], [K2, KW(2)], [K3, 1]], [[K1, KW(1)], K1, [K3, 1]],
+                  [[K1, KW(1)], None, [K2, 2]]):
+        for kind in "VLQMS":
+            for start in STARTS[kind]:
+                yield {"ops": [start, ["conj", 0, args3]] + battery(kind, 1, 0)}
+                if kind in "VMS":
+                    yield {"ops": [start, ["transient", 0], ["conj!n", 1, args3]] + rd(2) + [["persistent", 2]]
+                           + battery(kind, 8, 0)}
+        yield {"ops": [["nil"], ["conj", 0, args3], ["count", 1], ["seq", 1]]}
+    for name, args in (("disjn", [A1, P1]), ("dissocn", [A1, P1]), ("assocn", [[K1, 1], [K3, 2], [K2, 3]]),
+                       ("assocn", [[0, 1], [1, 2], [2, 3]])):
+        yield {"ops": [["nil"], [name, 0, args], ["count", 1], ["seq", 1]]}
+        for kind in "VLQMS":
+            yield {"ops": [STARTS[kind][1], [name, 0, args], ["count", 1], ["seq", 0],
+                           [name[:-1] + "!n", 0, args], ["transient", 0], [name, 5, args]]}
+
+
 def rand_elem(rng, pool):
     r = rng.random()
     if r < 0.8:
@@ -632,11 +770,30 @@ def random_history(rng, length, big=0):
                     ["get", t, key, KW(9)], ["contains", t, key]]
         else:
             menu = [["count", t], ["conj", t, [val]], ["seq", t]]
+        # variadic calls (one call on the implementation side, the fold of the unary operation in Coq)
+        key2, val2 = rng.choice(pool), rand_elem(rng, pool)
+        narg = rng.choice([2, 2, 3])
+        ks = [key, key2, rng.choice(pool)][:narg]
+        if k in ("M", "N"):
+            menu += [["dissocn", t, ks], ["assocn", t, [[key, val], [key2, val2]]]]
+        if k in ("S", "N"):
+            menu += [["disjn", t, ks], ["disjn", t, ks[::-1]]]
+        if k == "V":
+            menu += [["assocn", t, [[idx, val], [rng.randint(0, n + 1), val2]]]]
+        if k == "TV":
+            menu += [["conj!n", t, [val, val2]], ["assoc!n", t, [[idx, val], [rng.randint(0, n + 1), val2]]]]
+        if k == "TM":
+            menu += [["assoc!n", t, [[key, val], [key2, val2]]], ["dissoc!n", t, ks], ["conj!n", t, [[key, val], [key2, val2]]]]
+        if k == "TS":
+            menu += [["conj!n", t, [val, key2]], ["disj!n", t, ks]]
         if rng.random() < 0.03:        # an operation of another kind's menu: the error paths
             menu = [["assoc", t, key, val], ["dissoc", t, key], ["disj", t, key], ["pop", t], ["peek", t],
                     ["nth", t, idx], ["contains", t, key], ["rseq", t], ["transient", t], ["persistent", t],
                     ["conj!", t, val], ["assoc!", t, key, val], ["dissoc!", t, key], ["disj!", t, key], ["pop!", t],
-                    ["update", t, key], ["merge", t, o], ["into", t, o], ["into", o, t], ["wm", t, 3], ["seq", t]]
+                    ["update", t, key], ["merge", t, o], ["into", t, o], ["into", o, t], ["wm", t, 3], ["seq", t],
+                    ["dissocn", t, ks], ["disjn", t, ks], ["assocn", t, [[key, val], [key2, val2]]],
+                    ["conj!n", t, [val, val2]], ["assoc!n", t, [[key, val], [key2, val2]]], ["dissoc!n", t, ks],
+                    ["disj!n", t, ks]]
         op = rng.choice(menu)
         if order_exposing(sh, op):
             op = ["count", t]
@@ -688,6 +845,7 @@ def cases(tier, rng):
     for kind in "VLQMS":
         # every sequence of <= 2 mutators, each applied to the latest value or to the first one
         yield from exhaustive(kind, 2, root_actions=True)
+    yield from variadic_cases()
     if quick:
         # length 3: a seeded sample (the thorough tier enumerates them all)
         yield from sampled_sequences(rng, 3, 600)
